@@ -14,6 +14,9 @@ TINY = [
     T(2, [5, 3], [1, 3, 2], P=5, K=100, H=3),       # ties + zero delay
     T(2, [1, 2], [2, 1, 7], P=5, K=100, H=4),       # stragglers: re-queued and cancelled messages during rounds
     T(3, [7, 0, 1], [7, 2, 1], P=5, K=100, H=4),
+    # trickling traffic: events keep being extracted, held and sent while several rounds run
+    T(2, [2, 1], [2, 1, 2], P=5, K=100, H=12),
+    T(3, [1, 2, 1], [2, 1, 7], P=5, K=100, H=8),
 ]
 
 
@@ -25,6 +28,8 @@ def scenarios(tier):
         sc.append(hc.scen("f1_T3", TINY[1], T=3, ck=2, p=1, fine="gvt", oracle="G,M,K,E,T,R,L", j=4, deadline=dl))
         sc.append(hc.scen("f2_T2", TINY[2], T=2, ck=1, p=1, fine="gvt,queue", j=4, deadline=dl))
         sc.append(hc.scen("f3_T2", TINY[3], T=2, ck=2, p=1, fine="gvt,queue", j=4, deadline=dl))
+        sc.append(hc.scen("f5_T2", TINY[5], T=2, ck=2, p=1, fine="gvt", j=4, deadline=dl))
+        sc.append(hc.scen("c6_T3", TINY[6], T=3, ck=1, p=1, j=4, deadline=dl))
         sc.append(hc.scen("c3_p2", TINY[3], T=2, ck=2, p=2, j=8, deadline=dl))
         sc.append(hc.scen("c4_p1", TINY[4], T=3, ck=3, p=1, j=4, deadline=dl))
     else:
@@ -39,6 +44,16 @@ def scenarios(tier):
     return sc
 
 
+def build_hgvt(d):
+    """h_gvt includes gvt/gvt.c and datatypes/msg_queue.c (so that their file-scope state is visible to the digest); it is compiled
+    like a core object, with the hook header."""
+    import os
+    sub = os.path.join(d, "hgvt")
+    extra = ["-w", "-include", os.path.join(vc.VERIF, "engine", "vy.h")]
+    objs = vc.build_objs(sub, ["harness/h_gvt.c"], extra=extra) + vc.build_objs(sub, ["engine/rsched.c", "engine/plat.c"], extra=["-w"])
+    return vc.link(os.path.join(sub, "h_gvt"), objs)
+
+
 def run(tier, seed):
     t0 = time.time()
     d = vc.fresh_dir(PID)
@@ -50,6 +65,19 @@ def run(tier, seed):
                 raise vc.EngineError(f"vacuous: no execution with '{k}'")
         if m["counters"]["gvt_reports"][0] < 3 * m["executions"]:
             raise vc.EngineError("vacuous: fewer than 3 GVT reports per execution on average")
+    # (b) the thread-phase protocol with the real queue, closed by a cyclic driver: complete-state search
+    hg = build_hgvt(d)
+    if tier == "quick":
+        gsc = [("gvt_state_T2a", ["--stateful", "-j", "8", "--max-level", "3", "--deadline", "600", "T=2", "K=1", "w=a"]),
+               ("gvt_state_T2b", ["--stateful", "-j", "8", "--max-level", "2", "--deadline", "600", "T=2", "K=2", "w=b"])]
+    else:
+        gsc = [("gvt_state_T2a", ["--stateful", "-j", "16", "--deadline", "3000", "T=2", "K=1", "w=a"]),
+               ("gvt_state_T2b", ["--stateful", "-j", "16", "--max-level", "5", "--deadline", "1500", "T=2", "K=2", "w=b"]),
+               ("gvt_state_T3c", ["--stateful", "-j", "16", "--max-level", "3", "--deadline", "1500", "T=3", "K=1", "w=c"])]
+    greps, gm, gviol = vc.rsched_scenarios(PID, "h_gvt", hg, gsc, d, workers=2)
+    reps += greps
+    viol += gviol
+    m = vc.merge_rsched(reps)
     n = vc.triage(PID, viol)
     cov = hc.coverage_from(m, reps, "gvt_reports",
                            "as C01 but with every atomic operation of gvt/gvt.c, gvt/termination.c, parallel/parallel.c (and, per scenario, "
@@ -58,7 +86,13 @@ def run(tier, seed):
                            "extracted, re-queued by a rollback or cancelled in place; oracle G: per-thread GVT sequences non-decreasing, the "
                            "k-th value equal on every thread, no extraction and no rollback below a value already told to the thread, and at "
                            "the moment a value is told nothing below it is queued for any thread or in MPI flight; non-trivial = execution "
-                           "with >= 1 GVT value reported")
+                           "with >= 1 GVT value reported; plus h_gvt: the GVT reduction (gvt.c) and the real queue closed by a cyclic "
+                           "driver (2-3 workers running the main-loop shape for ever on a finite message workload), stateful search on a "
+                           "complete-state digest: every interleaving down to the stated choice depth (thorough: until the state graph of "
+                           "the smallest configuration is closed)")
+    cov["gvt_protocol_state_search"] = [{"id": r["id"], "states": r["distinct_states"], "transitions": r["distinct_transitions"],
+                                         "closed": r["exhaustive"], "level_completed": r["level_completed"]} for r in greps]
+    cov["states"] += sum(r["distinct_states"] for r in greps)
     vc.write_evidence(PID, tier, "model_checking", cov,
                       ["sequentially consistent interleavings of the hooked atomics; the relaxed orderings in gvt.c are not modelled",
                        "one rank here; the coloured message counting across ranks is exercised by C02",
